@@ -6,7 +6,11 @@ import H3.Model.E2E
     what the client (resp. server) application submitted on request stream `q<sid>` is what the
     peer application must be handed — same method, target, protocol, header values in the same
     per-name order, body = concatenation of the pieces sent, trailers — and then exactly one clean
-    end.  Transport behaviour (relay ops, credit grants, task order) does not appear in the result.
+    end, AND NOTHING ELSE: no call of either endpoint is left pending, neither endpoint has closed
+    the connection, reset a request stream or asked the peer to stop sending on one, and no call
+    has answered anything the line does not account for (`extra=-`: a `recv_data` answer other than
+    data outside the reader loop, an error of a sending call, an error of a driver).  Transport
+    behaviour (relay ops, credit grants, task order, grease) does not appear in the result.
 
     MODEL half: the composed model of `H3.E2E`: the scenario's message is turned into a `Message`
     (method, URI parts, header list, body pieces as the `sd` ops give them, trailers), `wire m` is
@@ -17,7 +21,10 @@ import H3.Model.E2E
     line.  The `http` parameter is instantiated by the identity instance `echo` (every value parses
     to itself, a built URI has its parts): that the real crate behaves like this on the scenario's
     values is exactly the round-trip assumption of the theorems, so a difference shows up as a
-    correspondence break. -/
+    correspondence break.  The summary tokens of the model half are computed from what `deliver`
+    reports — a call that stays `Pending`, the error cell (`closed`), `env.rst` / `env.stop` of the
+    receiving endpoint —, not printed as constants.  With `g1` the first request stream of the
+    connection carries the grease frame after its message (`streamBytes m (some _)`). -/
 namespace H3.Drv.C01
 open H3.Drv
 
@@ -129,13 +136,22 @@ def stepOp (st : St) (op : String) : St :=
       else st
   | _ => st
 
+/-- responses are printed by stream id (the servers' answers may come in any order) -/
+def bySid (l : List (Nat × Msg)) : List (Nat × Msg) := l.mergeSort (fun a b => a.1 ≤ b.1)
+
+/-- "followed by exactly one clean end-of-message indication" and nothing else: every call has
+    completed, nobody closed the connection, reset a request stream or stopped one, and no call
+    answered anything but what the lines above say -/
+def nothingElse : String :=
+  "c.pending=- c.closed=- c.rst=- c.stop=- s.pending=- s.closed=- s.rst=- s.stop=- extra=-"
+
 def expected (ops : List String) : String :=
   let st := ops.foldl stepOp {}
   let reqLines := st.reqs.map (fun (sid, m) =>
     s!"s.q{sid}.res=ok:{m.head}:{renderHdrs m.headers} s.q{sid}.rm={renderBody m}")
-  let respLines := st.resps.filter (·.2.sentHead) |>.map (fun (sid, m) =>
+  let respLines := (bySid st.resps).filter (·.2.sentHead) |>.map (fun (sid, m) =>
     s!"c.q{sid}.rr=ok:{m.head}:{renderHdrs m.headers} c.q{sid}.rm={renderBody m}")
-  " ".intercalate (reqLines ++ respLines)
+  " ".intercalate (reqLines ++ respLines ++ [nothingElse])
 
 /-! ### the model half -/
 
@@ -156,8 +172,9 @@ def findSub (pat : List Nat) : List Nat → Nat → Option Nat
   | [], _ => none
   | b :: r, i => if (b :: r).take pat.length == pat then some i else findSub pat r (i + 1)
 
-/-- `scheme://authority/path?query` → `uri::Parts` (the targets of the generator are in absolute
-    form; anything else is taken as a path) -/
+/-- `http::Uri::from_str` → `uri::Parts`: `scheme://authority/path?query` (absolute form); a target
+    that starts with `/` or is `*` is a path (origin / asterisk form); anything else is an authority
+    alone (authority form, the target of a plain CONNECT: `host:port`) -/
 def uriParts (u : List Nat) : UriParts :=
   match findSub [58, 47, 47] u 0 with
   | some i =>
@@ -166,7 +183,10 @@ def uriParts (u : List Nat) : UriParts :=
     let pq := rest.drop auth.length
     { scheme := some (u.take i), authority := if auth.isEmpty then none else some auth,
       pathAndQuery := if pq.isEmpty then some [47] else some pq }
-  | none => { scheme := none, authority := none, pathAndQuery := if u.isEmpty then none else some u }
+  | none =>
+    if u.isEmpty then { scheme := none, authority := none, pathAndQuery := none }
+    else if u.head? == some 47 || u == [42] then { scheme := none, authority := none, pathAndQuery := some u }
+    else { scheme := none, authority := some u, pathAndQuery := none }
 
 def fieldLines (hs : List (String × String)) : List FieldLine :=
   hs.map (fun p => (strBytes p.1, (parseHex p.2).getD []))
@@ -199,6 +219,18 @@ def renderUri (u : Uri) : String :=
     | none => []
   toHex (canonTarget (s ++ u.authority.getD [] ++ u.path.getD []))
 
+/-- what one direction of one exchange contributes to the result line -/
+structure Part where
+  /-- `<pre>.q<sid>.<res|rr>=… <pre>.q<sid>.rm=…` -/
+  toks : String
+  /-- calls of the receiving endpoint that never completed -/
+  pending : List String := []
+  /-- the receiving endpoint closed the connection with these codes -/
+  closed : List String := []
+  /-- RESET_STREAM / STOP_SENDING the receiving endpoint sent on this request stream -/
+  rst : List String := []
+  stop : List String := []
+
 def renderDelivered (pre task : String) (headCmd : String) (d : Delivered) : String :=
   let head := match d.head with
     | some (.request p) =>
@@ -220,22 +252,58 @@ def renderDelivered (pre task : String) (headCmd : String) (d : Delivered) : Str
 /-- the receiver's `max_field_section_size`: the scenarios configure none, so the default -/
 def limit : Nat := H3.Qpack.peerLimit none
 
-def modelLine (role : H3.ReqRecv.Role) (pre headCmd : String) (sid : Nat) (msg : Option Message) : String :=
-  match msg with
-  | none => s!"{pre}.q{sid}.{headCmd}=model-bad-message"
-  | some m =>
-    let w := wire m
-    renderDelivered pre s!"q{sid}" headCmd (deliver echo role limit (chunked (chunkSize w.length) w))
+/-- calls the documented pattern left pending, and what the calls did outside the stream object:
+    everything `Delivered.env` holds is printed -/
+def partOf (pre headCmd : String) (sid : Nat) (t : H3.ReqRecv.Trace) (d : Delivered) : Part :=
+  let optCode (o : Option Nat) : List String := match o with
+    | some c => [s!"{sid}:{c}"]
+    | none => []
+  { toks := renderDelivered pre s!"q{sid}" headCmd d
+    pending :=
+      if t.head == .pending then [s!"{pre}.q{sid}.{headCmd}"]
+      else if t.body.getLast? == some .pending || t.trailers == some .pending then [s!"{pre}.q{sid}.rm"]
+      else []
+    closed := match d.env.cell with
+      | some c => [s!"{c}"]
+      | none => []
+    rst := optCode d.env.rst
+    stop := optCode d.env.stop }
 
-def model (ops : List String) : String :=
+/-- `grease`: this stream's handle owes the connection's grease frame (the draw does not matter:
+    the frame is skipped) -/
+def modelPart (role : H3.ReqRecv.Role) (pre headCmd : String) (sid : Nat) (grease : Bool) (msg : Option Message) : Part :=
+  match msg with
+  | none => { toks := s!"{pre}.q{sid}.{headCmd}=model-bad-message" }
+  | some m =>
+    let w := streamBytes m (if grease then some 0 else none)
+    let t := recvPattern role (hdrOf echo role limit) (chunked (chunkSize w.length) w)
+    partOf pre headCmd sid t (deliverOf echo role limit t)
+
+def listOr (l : List String) : String := if l.isEmpty then "-" else ",".intercalate l
+
+/-- the summary tokens: nothing else happened at either endpoint -/
+def summary (reqs resps : List Part) : String :=
+  let cat (f : Part → List String) (ps : List Part) : String := listOr (ps.flatMap f)
+  s!"c.pending={cat (·.pending) resps} c.closed={listOr ((resps.flatMap (·.closed)).eraseDups)} " ++
+  s!"c.rst={cat (·.rst) resps} c.stop={cat (·.stop) resps} " ++
+  s!"s.pending={cat (·.pending) reqs} s.closed={listOr ((reqs.flatMap (·.closed)).eraseDups)} " ++
+  s!"s.rst={cat (·.rst) reqs} s.stop={cat (·.stop) reqs} extra=-"
+
+def hasGrease (cfg : String) : Bool := (cfg.splitOn ",").contains "g1"
+
+def model (ccfg scfg : String) (ops : List String) : String :=
   let st := ops.foldl stepOp {}
-  let reqLines := st.reqs.map (fun (sid, m) => modelLine .server "s" "res" sid (requestOf m))
-  let respLines := st.resps.filter (·.2.sentHead) |>.map
-    (fun (sid, m) => modelLine .client "c" "rr" sid (responseOf m))
-  " ".intercalate (reqLines ++ respLines)
+  -- the handle of the first request of a connection owes the grease frame (client: the first
+  -- `send_request`; server: the first request accepted)
+  let first := (st.reqs.map (·.1)).head?
+  let reqs := st.reqs.map (fun (sid, m) =>
+    modelPart .server "s" "res" sid (hasGrease ccfg && first == some sid) (requestOf m))
+  let resps := (bySid st.resps).filter (·.2.sentHead) |>.map
+    (fun (sid, m) => modelPart .client "c" "rr" sid (hasGrease scfg && first == some sid) (responseOf m))
+  " ".intercalate ((reqs ++ resps).map (·.toks) ++ [summary reqs resps])
 
 def handle : List String → String
-  | "e2e" :: _ :: _ :: ops => model ops ++ " ## " ++ expected ops
+  | "e2e" :: ccfg :: scfg :: ops => model ccfg scfg ops ++ " ## " ++ expected ops
   | _ => "bad-op"
 
 end H3.Drv.C01
